@@ -183,6 +183,33 @@ theorem ubo_after_addo_meets_doc {n : Nat} (x y : BitVec n) :
   simp only [uboFlag, hc, Bool.false_eq_true, if_false]
   exact ⟨builtinU_add_flag x y, builtinU_sub_flag x y⟩
 
+/-- **The emitted ADDO/SUBO statement sequence, destination possibly equal to a source** (64-bit forms):
+executed in the order the translator prints them (`gen_uoverflow_first`), the two statements leave the
+documented result in `dst` and the documented signed and unsigned flags in `__overflow`/`__uoverflow`
+— for every register file and every choice of `dst`, `s1`, `s2`, aliasing included. -/
+theorem ovf_sequence_meets_doc (d s1 s2 : Nat) (r : Regs) :
+    (let out := emitOvf64 Gen.C20.uoverflowBeforeStore .add d s1 s2 r
+     out.1 d = (docAddO (r s1) (r s2)).1 ∧ out.2.1 = (docAddO (r s1) (r s2)).2.1 ∧
+       out.2.2 = (docAddO (r s1) (r s2)).2.2) ∧
+    (let out := emitOvf64 Gen.C20.uoverflowBeforeStore .sub d s1 s2 r
+     out.1 d = (docSubO (r s1) (r s2)).1 ∧ out.2.1 = (docSubO (r s1) (r s2)).2.1 ∧
+       out.2.2 = (docSubO (r s1) (r s2)).2.2) := by
+  rw [gen_uoverflow_first]
+  simp only [emitOvf64, if_true, Regs.set]
+  refine ⟨⟨?_, ?_, builtinU_add_flag _ _⟩, ⟨?_, ?_, builtinU_sub_flag _ _⟩⟩ <;> simp [builtinS_add, builtinS_sub]
+
+/-- the OTHER order (unsigned flag computed after the store) is wrong as soon as `dst = s1`: `-1 + 1` -/
+theorem old_order_ovf_sequence_wrong :
+    ∃ (d s1 s2 : Nat) (r : Regs),
+      (emitOvf64 false .add d s1 s2 r).2.2 ≠ (docAddO (r s1) (r s2)).2.2 :=
+  ⟨0, 0, 1, fun i => if i = 0 then 0xFFFFFFFFFFFFFFFF else 1, by decide +kernel⟩
+
+/-- conversions, moves and floating-point rows have no Lean meaning; their emitted cast/operator text is
+pinned (a changed cast breaks the gate) and they are executed against MIR_interp bit for bit -/
+theorem other_rows_pinned :
+    Gen.C20.otherRows = Canon.C20.otherRows ∧ Gen.C20.inlineCases = Canon.C20.inlineCases :=
+  ⟨gen_other_rows, gen_inline_cases⟩
+
 theorem expectedMissing_eq : expectedMissing = outsideVocabulary := by decide
 
 /-- **Coverage (full statement).**  Every opcode of `MIR_insn_code_t` that `MIR_finish_func` does not
